@@ -240,6 +240,14 @@ def run(tier, seed, replay=None):
                         rep.broken.append("instance of C13_round_trip false in the executable model for " + texts[i][0][:300])
                 elif len(wv) >= 10:
                     rep.count("theorem-not-applicable:C13_round_trip (roundTripOK_rt fails)")
+                if len(wv) >= 13:
+                    rep.count("theorem-instances-checked:C13_header_of_canon")
+                    if wv[10] != "1":
+                        rep.broken.append("instance of C13_header_of_canon false in the executable model for " + texts[i][0][:300])
+                    if wv[11] == "1":
+                        rep.count("theorem-instances-checked:C13_header_resolved_locally")
+                        if wv[12] != "1":
+                            rep.broken.append("instance of C13_header_resolved_locally false in the executable model for " + texts[i][0][:300])
                 if shape:
                     rep.count("theorem-instances-checked:C13_canon_is_renaming_reserved")
                     if not is_ren_res:
@@ -270,6 +278,10 @@ def run(tier, seed, replay=None):
             rep.count("theorem-instances-checked:C13_same_canon_only_if_renaming")
             if av[9] != "1":
                 rep.broken.append("instance of C13_same_canon_only_if_renaming false in the executable model: " + texts[i][0][:300])
+        if len(av) >= 12 and av[10] == "1":
+            rep.count("theorem-instances-checked:C13_same_header_only_if_renaming")
+            if av[11] != "1":
+                rep.broken.append("instance of C13_same_header_only_if_renaming false in the executable model: " + texts[i][0][:300])
         if not (textual and perm):
             rep.count("alpha:presentation-is-not-the-textual-renaming (lifetime order / reserved spellings)")
             continue
